@@ -31,7 +31,10 @@ const char *pam_strerror(pam_handle_t *pamh, int errnum) { (void)pamh; (void)err
 void pam_vsyslog(const pam_handle_t *pamh, int priority, const char *fmt, va_list args) {
   (void)pamh; (void)priority; char buf[2048]; vsnprintf(buf, sizeof buf, fmt, args); /* formatted (exercises the format strings), dropped */ }
 int pam_prompt(pam_handle_t *pamh, int style, char **response, const char *fmt, ...) {
-  (void)pamh; (void)style; (void)fmt; *response = strdup(g_pw); return PAM_SUCCESS; }
+  (void)pamh; (void)style; (void)fmt;
+  /* a user who takes longer to type the password than the module's socket timeout (PAMDRV_PROMPT_DELAY_MS) */
+  const char *d = getenv("PAMDRV_PROMPT_DELAY_MS"); if (d && atoi(d) > 0) usleep((useconds_t)atoi(d) * 1000);
+  *response = strdup(g_pw); return PAM_SUCCESS; }
 
 /* Short writes on the agent's socket: with PAMDRV_WRITECAP=n every write() of the module accepts at most n bytes
  * (linked with -Wl,--wrap=write), as a stream socket may do at any time. */
